@@ -4,10 +4,10 @@ from vlib import *
 
 FULL_SYMS = ["A", "N", "D", "O", "R", "T", "o", "r", "x", "EACUTE", "CJK", "d1", "UDIGIT", "UND", "STAR", "QM", "SP", "TAB", "CR", "NL",
              "LP", "RP", "LS", "RS", "LC", "RC", "COLON", "PLUS", "EQ", "GT", "TILDE", "CARET", "LT", "HASH", "SEMI", "PCT", "COMMA",
-             "NUL", "BAD", "NBSP", "BANG", "AMP", "PIPE", "AT", "USYM", "LSEP", "DEL", "CTRL", "UREPL", "LDQ", "RDQ", "BS", "MINUS", "DOT", "DQ", "SQ", "SL"]
+             "NUL", "BAD", "NBSP", "BANG", "AMP", "PIPE", "AT", "USYM", "LSEP", "DEL", "CTRL", "UREPL", "LDQ", "RDQ", "USUP", "UFRAC", "BS", "MINUS", "DOT", "DQ", "SQ", "SL"]
 # the alphabet without near-duplicates (one of each bracket pair, of the keyword letters, of the ASCII junk characters ...): length 4
 MID_SYMS = ["A", "N", "D", "O", "R", "T", "o", "x", "EACUTE", "CJK", "d1", "UDIGIT", "UND", "STAR", "QM", "SP", "TAB", "NL", "LP", "RP", "LS", "RC",
-            "COLON", "PLUS", "EQ", "GT", "TILDE", "CARET", "HASH", "NUL", "BAD", "NBSP", "USYM", "UREPL", "LDQ", "BS", "MINUS", "DOT", "DQ", "SQ", "SL"]
+            "COLON", "PLUS", "EQ", "GT", "TILDE", "CARET", "HASH", "NUL", "BAD", "NBSP", "USYM", "UREPL", "LDQ", "USUP", "BS", "MINUS", "DOT", "DQ", "SQ", "SL"]
 # one representative per `case` of lex.go
 SUB_SYMS = ["O", "R", "x", "d1", "STAR", "SP", "NL", "LP", "COLON", "HASH", "BS", "MINUS", "DOT", "DQ", "SL", "EACUTE"]
 SUB_SYMS_SMALL = ["O", "R", "x", "d1", "STAR", "SP", "LP", "COLON", "HASH", "BS", "MINUS", "DQ", "SL", "CJK"]
